@@ -18,7 +18,7 @@ func init() {
 			"standard transport only; netpoll transport not simulated",
 			"ground truth is the generator's structure, serialised by the harness's own encoder",
 		},
-		RequiredProbes: []string{"fragments", "pipelined", "chunked", "expect100", "nearmiss", "stream", "big-body", "crnear-accepted"},
+		RequiredProbes: []string{"fragments", "pipelined", "chunked", "expect100", "nearmiss", "stream", "big-body", "crnear-accepted", "return-to-transport"},
 	}
 }
 
@@ -143,6 +143,10 @@ func RunC01(ep *core.Episode) {
 	o.Stream = tp.Choose("stream", 2) == 1
 	o.BufSize = tp.Pick("bufsize", 4096, 8192, 16384)
 	o.DisableNorm = tp.Chance("nonorm", 1, 4)
+	o.ReturnToTransport = tp.Chance("returnmode", 1, 5)
+	if o.ReturnToTransport {
+		ep.Probe("return-to-transport")
+	}
 	r := startEcho(ep, o)
 	n := 1 + tp.Weighted("nreq", []int{2, 3, 3, 2, 1, 1})
 	gopt := GenOpt{NearMiss: true, CRNear: true, Expect100: true, HTTP10: true, BigBodies: true, Hostile: true, ChunkExt: ep.Param("chunkext") != "off"}
